@@ -79,9 +79,14 @@ def cases(draw):
             cons.append({"kind": "scalar", "lhs": _single_terms(g, draw, view),
                          "sense": draw(st.sampled_from(["<=", ">=", "=="])), "rhs": ["const", "pyfloat", 1.0]})
         if stratum == "almost":
-            how = draw(st.sampled_from(["scalar", "otherview", "sameelems"]))
+            how = draw(st.sampled_from(["scalar", "otherview", "sameelems", "samename", "samename"]))
             if how == "scalar" and env["scalars"]:
                 extra = ["var", env["scalars"][0]["name"]]
+            elif how == "samename" and env["vectors"]:
+                # two different views whose derived names coincide (slice names ignore the step)
+                v0 = env["vectors"][0]
+                env["views"]["h0"] = ["slice", ["vvar", v0["name"]], None, None, 2]
+                extra = ["vsum", ["slice", ["vvar", v0["name"]], 0, v0["n"], None]]
             elif how == "otherview":
                 extra = ["vsum", g.pick(src)]
             else:
@@ -207,6 +212,17 @@ def check(case):
             if tuple(bd) != (lb, ub) or dm != dom:
                 return Result.violation("wrong-bounds-or-domain",
                                         f"{nm}: reported bounds {bd} domain {dm}, declared {(lb, ub)} {dom}; {desc}", classes)
+        # a bound edited after get_bounds() was read must show up in the next read
+        if names and case.get("mutate", True):
+            v0 = P.variables[len(names) // 2]
+            if v0.domain != "binary":
+                new_ub = (v0.lb if v0.lb is not None else 0) + 7
+                v0.ub = new_ub
+                again = P.get_bounds()[len(names) // 2]
+                if tuple(again) != (v0.lb, new_ub):
+                    return Result.violation("stale-get_bounds", f"{v0.name}.ub set to {new_ub} after a get_bounds() read, "
+                                                                f"get_bounds() still reports {again}; {desc}", classes)
+                classes.append("bound-edit-after-read")
         # keys of Solution.values for linear models
         try:
             linear = P._is_linear_problem()
